@@ -59,6 +59,9 @@ func c05States(c mcfg) []c05State {
 	}
 	st = append(st, c05State{"file-with-qid-type-bits-unopened", []mevent{att, {Op: "walk", Fid: 0, Newfid: 2, Names: []string{"d"}},
 		{Op: "create", Fid: 2, Name: "bf", Perm: go9p.DMAPPEND | go9p.DMTMP | 0644, Mode: 1}, {Op: "clunk", Fid: 2}, {Op: "walk", Fid: 0, Newfid: 1, Names: []string{"d", "bf"}}}})
+	// a Tversion the server refuses changes nothing: the rules of the negotiated dialect go on applying
+	st = append(st, c05State{"dir-unopened-after-refused-Tversion", []mevent{att, dir, {Op: "badversion"}}})
+	st = append(st, c05State{"file-unopened-after-refused-Tversion", []mevent{att, file, {Op: "badversion"}}})
 	st = append(st, c05State{"created-dir-open-OREAD", []mevent{att, dir, {Op: "create", Fid: 1, Name: "nd", Perm: go9p.DMDIR | 0755, Mode: 0}}})
 	if c.Auth {
 		st = append(st, c05State{"auth-fid", []mevent{att, {Op: "auth", Afid: 1, Uid: 7, Uname: "glenda"}}})
